@@ -43,12 +43,14 @@ class Parameter(CustomModel):
         if self.NoEcho:
             if provided_value is not None:
                 return self.NO_ECHO_WITH_VALUE
-            elif self.Default:
+            elif self.Default is not None:
                 return self.NO_ECHO_WITH_DEFAULT
             else:
                 return self.NO_ECHO_NO_DEFAULT
 
         elif self.Type in ["List<Number>", "CommaDelimitedList"]:
-            return value.split(",")
+            if value is None or isinstance(value, list):
+                return value
+            return str(value).split(",")
 
         return value if value is None else str(value)
